@@ -105,8 +105,9 @@ def check(case, sub="photonic"):
             ("CircuitMaxEmitEffDepth", "depth_penalty", q["eff_depth"], not generic),
         ]
     metrics = {}
-    half = dict(desc, ops=desc["ops"][: len(desc["ops"]) // 2])
-    decoy = gc.build(half) if len(half["ops"]) != len(desc["ops"]) else None
+    # decoy: the first half of the operations on a circuit with MORE registers (an idle emitter and two idle photons)
+    half = dict(desc, ne=desc["ne"] + 1, np=desc["np"] + 2, ops=desc["ops"][: len(desc["ops"]) // 2])
+    decoy = gc.build(half)
 
     def evaluate_all(phase):
         for cname, kw, want, applies in table:
